@@ -224,7 +224,7 @@ def random_value(rng, tok, vocab, zipf, max_tokens):
 
 def random_table_pair(rng, tok=None, max_rows=12, missing=0.1, dup_rate=0.2, extras=True,
                       key_kind=None, index_kind=None, max_tokens=8, vocab_size=None,
-                      str_dtype=0.0):
+                      str_dtype=0.25):
     tok = tok or random_tokenizer(rng)
     vocab = _vocab(rng, vocab_size or rng.choice([4, 8, 20, 60]))
     zipf = rng.random() < 0.5
